@@ -8,7 +8,7 @@ int  vp_sock_new(void);                               /* fd of a connected strea
 void vp_sock_feed(int fd, const void* data, int n);    /* bytes the peer sends (may be called repeatedly) */
 void vp_sock_peer_close(int fd);                       /* the peer closes after the bytes fed so far */
 int  vp_sock_sent(int fd, void* out, int cap);         /* copies what the code under test has written; returns the count */
-void vp_sock_fragment(int fd, int on);                 /* 1: every read() returns a symbolic number of bytes in 1..available */
+void vp_sock_fragment(int fd, int on);                 /* the next `on` read() calls return a symbolic number of bytes in 1..available */
 #ifdef __cplusplus
 }
 #endif
